@@ -357,6 +357,8 @@ def arrays(fam, rows, with_dom=False):
     out['y'] = a[:, 2].astype(np.int32)
   else:
     out['y'] = (a[:, 2] / 8.0).astype(np.float32)
+    # sentinel target: +inf (a real example whose loss is +inf)
+    out['y'][a[:, 2] == INF_TARGET] = np.inf
   if with_dom:
     out['domain_id'] = a[:, 3].astype(np.int32)
   return out
@@ -396,6 +398,9 @@ def with_prep_flag(run):
       _PREP[0] = False
   wrapped.__name__ = run.__name__
   return wrapped
+
+
+INF_TARGET = 10 ** 6
 
 
 def laid_batch(fam, rows, entries, garbage, with_dom, num_domains, salt=0):
@@ -551,6 +556,8 @@ def dataset_labels(case):
   sizes = [len(c) for c in case['clients']]
   if case.get('prep'):
     ls.append('preprocessor_not_finite_on_zero_rows')
+  if any(len(r) > 2 and r[2] == INF_TARGET for c in case['clients'] for r in c):
+    ls.append('real_example_with_infinite_loss')
   if 0 in sizes:
     ls.append('client_without_examples')
   if sum(sizes) == 0:
@@ -589,7 +596,13 @@ def run_average_loss(case):
   per_client = site == 'AverageLossEvaluator.evaluate_per_client_params'
   pints = [case['params'][ci if per_client else 0] for ci in range(nc)]
   want, scale = [], []
+  infinite = [any(r[2] == INF_TARGET for r in case['clients'][ci]) for ci in range(nc)]
   for ci in range(nc):
+    if infinite[ci]:
+      # a real example with an infinite loss: the average is +inf, padded or not
+      want.append(np.inf)
+      scale.append(1.0)
+      continue
     losses, _ = client_refs(case, ci, pints[ci])
     rv, _ = ref_reg(fam, reg, pints[ci])
     want.append((losses.mean() if losses.size else 0.0) + rv)
@@ -620,6 +633,11 @@ def run_average_loss(case):
       require(got[ci].shape == (), 'average_loss:not_scalar', lambda: f'{what}: {got[ci].shape}')
       clause = ('no_examples:average_loss_not_regularizer_only' if not case['clients'][ci]
                 else 'average_loss:differs_from_reference')
+      if infinite[ci]:
+        require(bool(np.isposinf(got[ci])), 'average_loss:infinite_loss_of_a_real_example_lost',
+                lambda: f'{what}: a real example has loss +inf, the average came out as '
+                        f'{got[ci].tolist()}')
+        continue
       check_close(got[ci], want[ci], scale[ci], clause, what)
       if base is not None:
         check_close(got[ci], base[ci], scale[ci], 'average_loss:depends_on_geometry',
@@ -972,6 +990,9 @@ def average_loss_case(draw, tier):
   nparams = len(clients) if site.endswith('per_client_params') else 1
   sizes = [len(c) for c in clients]
   regs = REGS if site == 'evaluate_average_loss' else REGS_OPAQUE
+  if fam == 'ls' and clients and clients[0] and draw(st.integers(0, 5)) == 0:
+    # one real example of client 0 has an infinite target, hence an infinite loss
+    clients[0][draw(st.integers(0, len(clients[0]) - 1))][2] = INF_TARGET
   return {'site': site, 'family': fam, 'reg': draw(st.sampled_from(regs)),
           'params': [draw(params_strategy(fam)) for _ in range(nparams)],
           'clients': clients,
@@ -1033,6 +1054,55 @@ def domain_case(draw, tier):
           'prep': draw(st.integers(0, 3)) == 0}
 
 
+# ------------------------------- per-domain counts with a low-precision loss
+
+def _ls_loss_bf16(params, batch, rng):
+  return _ls_loss(params, batch, rng).astype(jnp.bfloat16)
+
+
+@functools.lru_cache(maxsize=None)
+def _domain_pass_bf16(nd):
+  return agnostic_fed_avg.create_domain_metrics_for_each_client(_ls_loss_bf16, nd)
+
+
+def run_domain_counts_low_precision(case):
+  """The per-domain example COUNT is the number of real rows of that domain,
+  whatever the dtype of the per-example loss and however many rows of a domain
+  share one padded batch (hundreds: beyond what bfloat16 can count)."""
+  nd = 2
+  n0, n1 = case['n0'], case['n1']
+  rows = [[(j * 7) % 17 - 8, (j * 3) % 13 - 6, (j * 5) % 9 - 4, 0 if j < n0 else 1]
+          for j in range(n0 + n1)]
+  if case['interleave']:
+    rows = rows[::2] + rows[1::2]
+  want = [float(sum(1 for r in rows if r[3] == d)) for d in range(nd)]
+  shared = {'params': params_tree('ls', case['params']),
+            'alpha': jnp.asarray([0.5, 0.25], jnp.float32)}
+  for b in case['batch_sizes']:
+    geom = {'kind': 'padded', 'b': b, 'k': case['k'], 'pads': []}
+    batches = make_batches('ls', rows, geom, 0, with_dom=True, num_domains=nd)
+    out = list(_domain_pass_bf16(nd)(shared, [(client_id(0), batches, jax.random.PRNGKey(0))]))
+    require(len(out) == 1, 'domain_metrics:client_ids', f'{len(out)} results')
+    num = np.asarray(out[0][1]['domain_num'], np.float64)
+    require(num.tolist() == want, 'domain_num:differs_from_real_example_counts',
+            f'bfloat16 per-example loss, {n0}+{n1} rows, padded batch size {b} '
+            f'(buckets {case["k"]}): counts {num.tolist()} want {want}')
+    beta = float(np.asarray(out[0][1]['beta'], np.float64))
+    require(abs(beta - (0.5 * want[0] + 0.25 * want[1])) <= 1e-3 * (1 + 0.5 * want[0]),
+            'beta:differs_from_alpha_dot_domain_num', f'batch size {b}: beta {beta}')
+  return []
+
+
+@st.composite
+def domain_counts_case(draw, tier):
+  return {'n0': draw(st.sampled_from([300, 400, 257, 513])),
+          'n1': draw(st.sampled_from([0, 200, 3])),
+          'interleave': draw(st.booleans()),
+          'batch_sizes': draw(st.sampled_from([[64, 512], [300, 512], [512, 1024]])),
+          'k': draw(st.sampled_from([1, 2])),
+          'params': draw(params_strategy('ls'))}
+
+
 CHECKS = [
     Check(name='masked_grad', run=run_masked_grad, strategy=grad_case,
           labels=labels_grad, nontrivial=nontrivial_grad,
@@ -1056,6 +1126,14 @@ CHECKS = [
           budget={'quick': 192, 'thorough': 6000}, time_share=3.5,
           doc='Mime gradient pass: per-client (sum of grad*num, num) and the '
               'full-batch server gradient of mime / mime_lite for every geometry'),
+    Check(name='domain_counts_low_precision_loss', run=run_domain_counts_low_precision,
+          strategy=domain_counts_case,
+          labels=lambda c: ['n0=%d' % c['n0'], 'n1=%d' % c['n1'], 'k=%d' % c['k']],
+          nontrivial=lambda c, ls: c['n1'] > 0,
+          budget={'quick': 32, 'thorough': 320}, time_share=0.8,
+          doc='agnostic per-domain pass with a bfloat16 per-example loss and padded '
+              'batches that hold several hundred real rows of one domain: the domain '
+              'counts are the exact numbers of real rows for every batch size'),
     Check(name='domain_metrics', run=with_prep_flag(run_domain_metrics), strategy=domain_case,
           labels=domain_labels, nontrivial=dataset_nontrivial,
           budget={'quick': 192, 'thorough': 6000}, time_share=2.5,
